@@ -13,7 +13,10 @@ Not modelled: MolecularData / HDF5 (oracle only).
 import OFV.Proofs.C20
 import OFV.Proofs.C20Files
 import OFV.Proofs.C20Coef
+import OFV.Proofs.C20Coef2
+import OFV.Proofs.C20Coef3
 import OFV.Proofs.C20Mol
+import OFV.Proofs.C20Canon
 import Mathlib.Tactic.NormNum
 
 namespace OFV.C20
@@ -36,6 +39,33 @@ theorem parse_print_roundtrip (cls : Cls) (tol : Rat) (nt : NumTables) (A : List
     (h : RoundTripOK cls tol nt A) (hne : printedEntries cls tol A ≠ []) :
     initFromString cls nt (printOp cls tol A) = some (entryOp (printedEntries cls tol A)) :=
   initFromString_printOp h hne
+
+/-- **canonical_form_discharged.**  The canonical-form hypothesis `simplify cls key = (1, key)` of the round-trip
+theorems holds for every key an operator of the four savable classes can store: stored keys are outputs of `_simplify`
+(C01) and `_simplify` maps its own outputs to themselves with coefficient factor 1 (fermions: identity; bosons / quad:
+the stable sort fixes sorted terms; qubits: the merge loop fixes strictly increasing terms without identity factors). -/
+theorem canonical_form_discharged (cls : Cls) (hs : Savable cls) (t : Term) :
+    simplify cls (simplify cls t).2 = (1, (simplify cls t).2) :=
+  simplify_idem cls hs t
+
+/-- for boson / quad keys the canonical-form hypothesis is exactly "indices non-decreasing" -/
+theorem canonical_ladder_iff (cls : Cls) (hc : cls = .boson ∨ cls = .quad) (t : Term) :
+    simplify cls t = (1, t) ↔ t.Pairwise (fun a b => a.1 ≤ b.1) :=
+  canonical_iff_ladder cls hc t
+
+/-- **parse_print_roundtrip for stored dictionaries**: `RoundTripOK` without the canonical-form hypothesis, for
+dictionaries whose keys are `_simplify` outputs (what the operator classes store) -/
+theorem roundtrip_ok_of_simplified (cls : Cls) (hs : Savable cls) (tol : Rat) (nt : NumTables) (A : List Entry)
+    (hvalid : ∀ e ∈ A, ValidTerm cls e.1) (hkeys : ∀ e ∈ A, ∃ t, e.1 = (simplify cls t).2)
+    (hnodup : (A.map (·.1)).Nodup) (hcoef : ∀ e ∈ A, GQ.isSmall tol e.2.1 = false → CoefOK nt e.2.2 e.2.1) :
+    RoundTripOK cls tol nt A where
+  valid := hvalid
+  canonical := by
+    intro e he
+    obtain ⟨t, ht⟩ := hkeys e he
+    rw [ht]; exact simplify_idem cls hs t
+  nodup := hnodup
+  coef := hcoef
 
 /-- the printed entries are exactly the non-negligible entries of `A` -/
 theorem printed_entries_spec (cls : Cls) (tol : Rat) (A : List Entry) (e : Entry) :
@@ -117,6 +147,48 @@ theorem coef_contract_int (nt : NumTables) (z : Int) (hmem : ∃ w, (intStr z, w
     (hagree : ∀ e ∈ nt.pyFloat, ∀ v, floatIntModel e.1 = some v → e.2 = v) :
     CoefOK nt (intStr z) (intGQ z) :=
   coefOK_int_of_model nt z hmem hagree
+
+/-- **coef_contract_imag_int.**  For purely imaginary integer coefficients (printed as `2j`, `-13j`) the contract `CoefOK`
+is discharged up to ONE table entry: every syntactic requirement is proved for the text `str(z) + 'j'`, the parser's sign
+handling (`-` stripped before `complex()`, result negated) is proved to give `z i`; what remains is
+`complex(str(|z|) + 'j') = |z| i` for the supplied table (checked on the real `complex` by the correspondence run) -/
+theorem coef_contract_imag_int (nt : NumTables) (z : Int)
+    (h : lookup nt.pyComplex (natStr z.natAbs ++ ['j']) = some (imagGQ z.natAbs)) :
+    CoefOK nt (imagStr z) (imagGQ z) :=
+  coefOK_imag_int nt z h
+
+/-- **coef_contract_gauss_int.**  For Gaussian-integer coefficients printed as `(a+bj)` / `(a-bj)` the contract `CoefOK` is
+discharged up to ONE table entry: the text has no white space, square bracket, colon or leading `+`, and the parser is proved
+to hand exactly this text to `complex()` without negation; what remains is `complex("(a+bj)") = a + b i` for the supplied
+table (checked on the real `complex` by the correspondence run) -/
+theorem coef_contract_gauss_int (nt : NumTables) (a b : Int)
+    (h : lookup nt.pyComplex (gaussStr a b) = some (gaussGQ a b)) :
+    CoefOK nt (gaussStr a b) (gaussGQ a b) :=
+  coefOK_gauss_int nt a b h
+
+example : gaussStr 3 (-12) = ['(', '3', '-', '1', '2', 'j', ')'] := by
+  simp [gaussStr, intStr, natStr, toDigitsRev, digitChar]
+
+/-- **parse_print_roundtrip_int: the round trip for integer-coefficient operators with NO coefficient contract and NO
+canonical-form hypothesis.**  For every dictionary of a savable class whose keys are `_simplify` outputs with valid actions
+and whose coefficients are integers printed by `str`: if the supplied `float` table contains the printed texts and agrees
+with the exact integer model (the one fact the run checks on the real `float`), the string constructor applied to
+`str(A)` returns exactly the non-negligible terms of `A` -/
+theorem parse_print_roundtrip_int (cls : Cls) (hs : Savable cls) (tol : Rat) (nt : NumTables) (A : List Entry)
+    (hvalid : ∀ e ∈ A, ValidTerm cls e.1) (hkeys : ∀ e ∈ A, ∃ t, e.1 = (simplify cls t).2)
+    (hnodup : (A.map (·.1)).Nodup)
+    (hint : ∀ e ∈ A, ∃ z : Int, e.2.2 = intStr z ∧ e.2.1 = intGQ z)
+    (hmem : ∀ e ∈ A, ∃ w, (e.2.2, w) ∈ nt.pyFloat)
+    (hagree : ∀ e ∈ nt.pyFloat, ∀ v, floatIntModel e.1 = some v → e.2 = v)
+    (hne : printedEntries cls tol A ≠ []) :
+    initFromString cls nt (printOp cls tol A) = some (entryOp (printedEntries cls tol A)) := by
+  apply parse_print_roundtrip cls tol nt A _ hne
+  apply roundtrip_ok_of_simplified cls hs tol nt A hvalid hkeys hnodup
+  intro e he _
+  obtain ⟨z, htxt, hval⟩ := hint e he
+  obtain ⟨w, hw⟩ := hmem e he
+  rw [htxt, hval]
+  exact coef_contract_int nt z ⟨w, htxt ▸ hw⟩ hagree
 
 /-- **molecular_data_attribute_table** (`MolecularData.save` / `load` conventions `None ↦ False ↦ None`, `int(...)`,
 `float(...)`; h5py itself is a contract): `None`, every number (zero included) and every array survive
